@@ -5,6 +5,7 @@ import RuxModel.Model.Writer
 
     chain <k> <GET|HEAD|POST> <onpanic> <onerror> <ct-hex|none> ...   -> ok        (first line; extra tokens ignored)
     <action> <site> <args…>   site = 0 … 2k-2 | E | P                 -> skipped | ok … | wrote n err … | panic …
+    fwd <site> <prog> | nest <site> <prog>   site = 0 … 2k-2          -> skipped | ok …      (see `wxStep` below)
     end [hc]                                                          -> <escaped> <log> len=<Length()> ;; st=<StatusCode()>
                                        (`hc`: the harness enters through Router.HandleContext instead of ServeHTTP;
                                         both run handleHTTPRequest, the model is the same)
@@ -112,6 +113,60 @@ def sentStr : Option (Option Bytes) → String
 
 def stateStr (w : W) : String := s!"len={w.length} ;; st={w.status} ct={ctStr w.ctype}"
 
+/-! ### `fwd` / `nest`: a handler hands the request to another dispatch
+
+  `<prog>` = `-` or comma separated `s<code>` (SetStatus) | `w<hex>` (a write the underlying writer accepts in full) |
+  `f` (Flush): what the main handler of the other dispatch does.
+
+  * `fwd`: `Router.HandleContext(c)` with the running context, forwarded to a route whose chain has the same length.
+    `Reset` keeps the writer, so the operations of `<prog>` act on the same writer; the end of the forwarded
+    `handleHTTPRequest` commits (`ensure`); `Reset` emptied `c.Errors`; the cursor is left at the end of the chain:
+    like an `Abort`, a forward in the block before `Next()` cuts the deeper handlers off.
+  * `nest`: `WrapHTTPHandler(inner)(c)`: the inner router wraps `c.Resp` in a writer of its own (`W.fresh`, sharing the
+    header map); every call that inner writer makes on the writer below it (its log) is an operation on the outer writer:
+    `WriteHeader(c)` = `setStatus c`, `Write` = `write`, `Flush` = `flush`; the end of the inner chain commits the inner
+    writer (`ensure`), i.e. hands its status to the outer one. -/
+
+def parseProgOp (t : String) : Option Op :=
+  if t = "f" then some .flush else
+  match t.toList with
+  | 's' :: rest => (intOfStr? (String.ofList rest)).map .setStatus
+  | 'w' :: rest => (Bytes.ofHex (String.ofList rest)).map fun b => .write b b.length false
+  | _ => none
+
+def parseProg (s : String) : Option (List Op) :=
+  if s = "-" then some [] else (s.splitOn ",").mapM parseProgOp
+
+/-- a call received from the inner writer, as an operation on the outer writer -/
+def outerOp : Ev → Op
+  | .wh c => .setStatus c
+  | .w b acc err => .write b acc err
+  | .fl => .flush
+
+/-- one operation on the inner writer; its new calls reach the outer writer -/
+def nestStep (p : W × W) (o : Op) : W × W :=
+  let inn' := step p.1 o
+  (inn', run p.2 ((inn'.log.drop p.1.log.length).map outerOp))
+
+def nestRun (w : W) (ops : List Op) : W :=
+  let p := ops.foldl nestStep (W.fresh w.ctype, w)
+  let inn' := ensure p.1
+  run p.2 ((inn'.log.drop p.1.log.length).map outerOp)
+
+def wxStep (s : WriterSt) (nest : Bool) (site prog : String) : WriterSt × String :=
+  match parseSite s.cfg.k site, parseProg prog with
+  | some (.chain i, rk), some ops =>
+    if rk < s.rank then (s, "bad-order") else
+    let r := s.req
+    if r.runs s.cfg (.chain i) then
+      let r' : Req :=
+        if nest then { r with w := nestRun r.w ops }
+        else { r with w := ensure (run r.w ops), trace := r.trace ++ ops, errors := 0,
+                      skip := r.newSkip s.cfg (.chain i) (.abort 0 none) }
+      ({ s with req := r', rank := rk }, "ok " ++ stateStr r'.w)
+    else ({ s with rank := rk }, "skipped")
+  | _, _ => (s, "bad-op")
+
 def writerStep (s : WriterSt) : List String → WriterSt × String
   | "chain" :: k :: m :: op :: oe :: ct :: _ =>
     match k.toNat?, parseMeth m, parseBool op, parseBool oe, parseCT ct with
@@ -127,6 +182,8 @@ def writerStep (s : WriterSt) : List String → WriterSt × String
       ({ s with req := Req.init s.cfg, rank := 0 },
        s!"{boolStr s.req.escaped} {logStr f.log} len={f.length} ;; st={f.status} ct={ctStr f.ctype} sent={sentStr f.sent}")
     else (s, "bad-op")
+  | ["fwd", site, prog] => wxStep s false site prog
+  | ["nest", site, prog] => wxStep s true site prog
   | kind :: site :: rest =>
     match parseSite s.cfg.k site, parseAct (kind :: rest) with
     | some (st, rk), some a =>
